@@ -81,9 +81,7 @@ def read_partial(path):
     return out
 
 
-def observe(records, workdir, tag):
-    """Validate recorded traces with TLC against ObserverTrace. Returns (violations, states)."""
-    d = os.path.join(workdir, "obs-" + tag)
+def _observe_one(records, d):
     os.makedirs(d, exist_ok=True)
     for f in ("ResObserver.tla", "ObserverTrace.tla", "CacheOps.tla", "CacheTrace.tla", "SubQueueTrace.tla", "ResQueueTrace.tla", "SubAccessTrace.tla", "ResSubTrace.tla", "SubReadyTrace.tla", "ConnQueueTrace.tla"):
         shutil.copy(os.path.join(SPEC, f), d)
@@ -95,7 +93,7 @@ def observe(records, workdir, tag):
     vp = os.path.join(d, "viol.json")
     if os.path.exists(vp):
         os.remove(vp)
-    p = tlc("ObserverTrace.tla", d, [], timeout=3000, java_opts="-Xss512m")
+    p = tlc("ObserverTrace.tla", d, [], timeout=3000, java_opts="-Xss512m -Xmx3g")
     gen, distinct = tlc_stats(p.stdout)
     if not os.path.exists(vp) or "Error:" in p.stdout or distinct != len(records) + 1:
         raise MachineryError("trace validation did not consume the trace to the end (%d of %d lines) [%s]\n%s"
@@ -103,6 +101,39 @@ def observe(records, workdir, tag):
     viol = json.load(open(vp))
     shutil.rmtree(d, ignore_errors=True)
     return viol, distinct
+
+
+def observe(records, workdir, tag):
+    """Validate recorded traces with TLC against ObserverTrace. Returns (violations, states).
+    The traces of one run are independent (the observer starts afresh at every "reset" record), so a long
+    concatenation is cut at trace boundaries and the pieces are validated by several TLC processes at once."""
+    d = os.path.join(workdir, "obs-" + tag)
+    CH = 25000
+    if len(records) <= 2 * CH:
+        return _observe_one(records, d)
+    chunks, cur = [], []
+    for r in records:
+        if r["e"] == "reset" and len(cur) >= CH:
+            chunks.append(cur)
+            cur = []
+        cur.append(r)
+    if cur:
+        chunks.append(cur)
+    from concurrent.futures import ThreadPoolExecutor
+    offs, o = [], 0
+    for c in chunks:
+        offs.append(o)
+        o += len(c)
+    with ThreadPoolExecutor(max_workers=6) as ex:
+        outs = list(ex.map(lambda ic: _observe_one(ic[1], "%s-%d" % (d, ic[0])), enumerate(chunks)))
+    viol, states = [], 0
+    for (v, st), off in zip(outs, offs):
+        for x in v:
+            if isinstance(x.get("l"), int):
+                x["l"] += off
+            viol.append(x)
+        states += st - 1
+    return viol, states + 1
 
 
 def split_traces(records):
